@@ -630,6 +630,17 @@ func (e *Env) evalCall(n *ECall) (cval, error) {
 			return cval{}, err
 		}
 		return cval{t: c.jsonField(d.t, nm.V, t, nil), typ: t}, nil
+	case "dyntype":
+		// dyntype(x): what reflect.TypeOf(x) returns for the interface value x
+		if err := need(1); err != nil {
+			return cval{}, err
+		}
+		v, err := e.eval(n.Args[0])
+		if err != nil {
+			return cval{}, err
+		}
+		c.R.UFun("reflTypeOf", "(declare-fun reflTypeOf (Int) Iface)\n(declare-fun reflTagOf (Iface) Int)\n(assert (forall ((t Int)) (! (and (not ((_ is inil) (reflTypeOf t))) (= (reflTagOf (reflTypeOf t)) t)) :pattern ((reflTypeOf t)))))")
+		return cval{t: Ite(IsNilIface(v.t), NilIface, app("Iface", "reflTypeOf", ITyp(v.t))), typ: types.NewInterfaceType(nil, nil)}, nil
 	case "rtypeof":
 		// the reflect.Type of a Go type, as returned by reflect.TypeOf
 		if err := need(1); err != nil {
